@@ -66,6 +66,14 @@ func (r *Reader) readIloc(b *box) (err error) {
 
 	for i := 0; i < len(buf); {
 		var ent ilocEntry
+		// item_ID, (construction_method), data_reference_index, base_offset and extent_count
+		need := 2 + 2 + int(ilb.baseOffsetSize) + 2
+		if b.flags.version() > 0 {
+			need += 2
+		}
+		if i+need > len(buf) {
+			break
+		}
 		ent.id = itemID(bmffEndian.Uint16(buf[i : i+2]))
 		i += 2
 
@@ -88,6 +96,9 @@ func (r *Reader) readIloc(b *box) (err error) {
 		for j := 0; j < int(ent.count); j++ {
 			var ol offsetLength
 			if j == 0 {
+				if i+int(ilb.offsetSize)+int(ilb.lengthSize) > len(buf) {
+					return b.close()
+				}
 				ol.offset = uintN(ilb.offsetSize, buf[i:i+int(ilb.offsetSize)])
 				i += int(ilb.offsetSize)
 				ol.length = uintN(ilb.lengthSize, buf[i:i+int(ilb.lengthSize)])
@@ -127,6 +138,13 @@ func readIlocHeader(b *box) (ilb itemLocationBox, err error) {
 		ilb.indexSize = buf[1] & 15
 	}
 	ilb.count = bmffEndian.Uint16(buf[2:4])
+	for _, size := range []uint8{ilb.offsetSize, ilb.lengthSize, ilb.baseOffsetSize} {
+		switch size {
+		case 0, 1, 2, 4, 8:
+		default:
+			return ilb, ErrIlocFieldSize
+		}
+	}
 	if logLevelInfo() {
 		logInfoBox(b).Object("ItemLocation", ilb).Send()
 	}
@@ -136,6 +154,8 @@ func readIlocHeader(b *box) (ilb itemLocationBox, err error) {
 
 func uintN(size uint8, buf []byte) uint64 {
 	switch size {
+	case 0:
+		return 0
 	case 1:
 		return uint64(buf[0])
 	case 2:
